@@ -6,7 +6,7 @@
    default/explicit). *)
 From Coq Require Import String Ascii.
 From V.lib Require Import Base.
-From V.c01 Require Import C01Codec C01Model.
+From V.c19 Require Import C19BoxCodec C19BoxModel.
 From V.c19 Require Import C19Model C19Spec C19Witness C19RecModel C19TreeModel C19TreeProofs.
 
 Definition ss_langs : list str := [BS "swe"; BS "en"; BS "zh-Hant"].
